@@ -51,6 +51,38 @@ struct Init {
         simple("C16", "one seed = one schema with any subset of variables in fill mode (set_fill before/after definitions, def_var_fill with/without value), 1..8 ranks, partial writes, redefinitions adding fixed and record variables to files that already hold records, fill_var_rec; never-written elements are read through the API and decoded from the raw image; non-trivial = at least one fill-mode variable existed and was read or checkpointed",
                [](bool th) { GenParams g; g.fill = true; g.redef = true; g.max_np = th ? 8 : 6; g.max_data_ops = th ? 24 : 14; g.checkpoint_each = false; g.knobs = true; return g; },
                [](const Program &q, const RunResult &r) { bool f = false; for (auto &op : q.ops) if (!op.skip && (op.kind == OP_SET_FILL || op.kind == OP_DEF_VAR_FILL)) f = true; return r.completed && f; });
+        {   // C17 lifecycle of handles and resources
+            Profile p; p.id = "C17"; p.level = "exploration";
+            p.technique = "deterministic simulation with fault injection: seeded histories over several files + resource accounting at the allocation / MPI-object seams";
+            p.rule = "one seed = one history of create/open/close/abort over 1..3 files that are open at the same time, every API family in between, calls on stale / negative / huge / unused ids while other files are open, close with pending nonblocking requests; odd seeds additionally inject 1..2 faults (MPI-IO data errors, open/close/sync/set_view/delete errors) at random positions with relaxed return-code oracles; oracle: NC_EBADID / NC_EPENDING as documented, no crash, files independent (per-file model), and when the last file is closed zero live library heap blocks, MPI datatypes, communicators, info objects, file handles, requests and file descriptors on every rank; non-trivial = >= 2 files or a bad-id call or a fired fault";
+            p.fault_kinds = {"io-error", "open-error", "close-error", "sync-error", "setview-error", "delete-error"};
+            p.gen = [](uint64_t seed, bool th) {
+                GenParams g; g.multi_file = true; g.badids = true; g.close_pending = true; g.nonblocking = true; g.redef = true; g.fill = true; g.max_np = 3; g.max_data_ops = th ? 14 : 8; g.max_dimlen = 4; g.knobs = true;
+                Program q = gen_program(seed, g, "C17");
+                if (seed % 2) {
+                    sim::Rng rng(seed * 7919 + 13); int nf = 1 + (int)rng.below(2);
+                    static const int kinds[] = {sim::F_IO_DATA, sim::F_IO_DATA, sim::F_IO_DATA, sim::F_OPEN, sim::F_CLOSE, sim::F_SYNC, sim::F_SETVIEW, sim::F_DELETE};
+                    static const int classes[] = {MPI_ERR_IO, MPI_ERR_NO_SPACE, MPI_ERR_QUOTA, MPI_ERR_ACCESS, MPI_ERR_READ_ONLY, MPI_ERR_FILE, MPI_ERR_OTHER, MPI_ERR_NO_SUCH_FILE, MPI_ERR_BAD_FILE};
+                    for (int i = 0; i < nf && !q.ops.empty(); i++) { sim::Fault f; f.kind = kinds[rng.below(8)]; f.rank = (int)rng.below(q.cfg.sim.nprocs); f.op = (int)rng.below(q.ops.size()); f.nth = (int)rng.below(3); f.errclass = classes[rng.below(9)]; q.faults.push_back(f); }
+                }
+                return q;
+            };
+            p.check = [](Program &q) {
+                RunOpts o;
+                if (!q.faults.empty()) { o.check_rc = false; o.check_data = false; o.check_files = false; }
+                RunResult r = run_program(q, o);
+                if (!q.faults.empty() && !r.violations.empty()) {
+                    // after an injected error the ranks may legitimately diverge (e.g. one rank's create failed): only memory/resource/usage verdicts are kept
+                    bool fired = false; for (auto &f : r.faults) fired = fired || f.fired;
+                    const std::string &k = r.violations[0].kind;
+                    if (fired && (k == "hang" || k == "collective-mismatch" || k == "livelock")) r.violations.clear();
+                }
+                return r;
+            };
+            p.nontrivial = [](const Program &q, const RunResult &r) { int nf = 0; bool bad = false; for (auto &op : q.ops) if (!op.skip) { if (op.kind == OP_CREATE) nf++; if (op.kind == OP_BADID) bad = true; } bool fired = false; for (auto &f : r.faults) fired = fired || f.fired; return nf >= 2 || bad || fired; };
+            p.assumptions = {"in fault-injecting runs hangs and collective mismatches after the first fired fault are not judged (ranks may legitimately diverge after an error only some of them saw)"};
+            reg(p);
+        }
         {   // C11 fault enumeration: every data-transfer MPI-IO call x error class, one fault per run
             Profile p; p.id = "C11"; p.level = "fault_enumeration";
             p.technique = "deterministic simulation with fault injection: single-fault enumeration over every data-transfer MPI-IO call of sampled programs";
